@@ -248,6 +248,7 @@ def run(world, tier, info, only=None):
         ck.floor("R1", "functions reading %s or a carrier" % opt, len(rs), 1)
     ck.floor("R2", "consumers examined", n_sinks, 20)
     n_reg = align_pass_isolation(ck, w)
+    n_twin = expanded_twins_agree(ck, w)
     ck.analysed = {"readers": analysed, "consumers": n_sinks, "align_only_regions": n_reg}
     return ck.finish(info)
 
@@ -368,3 +369,55 @@ def _pushes_doc_text(f, blocks):
                 continue
             return True
     return False
+
+
+# ---------------- R4 the twin taken under expand_inside_operation consumes the decisions its plain twin consumes ------------------------
+# expand_inside_operation selects `emit_expanded_X` instead of `X`/`emit_X`. Equivalence of the rewrite itself is behavioural and not
+# claimed; what is visible in code shape is that both twins ask the same Emitter helpers for decisions and that the expanded twin uses
+# every component of a tuple-valued answer that the plain twin uses (cond_type_prefix's second component turns the last arm into
+# `default`: a twin ignoring it emits a different case statement under the option).
+def _components_used(m, callee):
+    """tuple components of `callee`'s result that are read and whose receiving local is mentioned again (None = no such call)."""
+    dsts = [b["t"]["dst"][0] for b in m["blocks"] if b["t"].get("t") == "call" and b["t"].get("callee") == callee and not b["t"]["dst"][1]]
+    if not dsts:
+        return None
+    used = set()
+    text = None
+    for b in m["blocks"]:
+        for st in b["s"]:
+            if st[0] != "=" or st[2][0] != "use":
+                continue
+            op = st[2][1]
+            if op[0] in ("c", "m") and op[1][0] in dsts and op[1][1] and op[1][1][0][0] == "f" and not st[1][1]:
+                recv = st[1][0]
+                if text is None:
+                    text = repr([[x for x in bb["s"]] for bb in m["blocks"]]) + repr([bb["t"] for bb in m["blocks"]])
+                # the receiving local must occur again as an operand place
+                if len(re.findall(r"\[%d, \[" % recv, text)) > 1:
+                    used.add(op[1][1][0][1])
+    return used
+
+
+def expanded_twins_agree(ck, w):
+    n = 0
+    for p in sorted(w.fns):
+        s = w.fns[p]
+        if s["crate"] != "veryl_emitter" or s.get("alias_of") or "::emit_expanded_" not in p:
+            continue
+        base, name = p.rsplit("::", 1)
+        x = name[len("emit_expanded_"):]
+        twin = next((t for t in (base + "::emit_" + x, base + "::" + x) if t in w.fns), None)
+        if twin is None:
+            continue
+        me, tw = w.mir(p), w.mir(twin)
+        for c in sorted({c["c"] for c in w.fns[twin]["calls"]} & {c["c"] for c in s["calls"]}):
+            a, b = _components_used(tw, c), _components_used(me, c)
+            if not a:
+                continue
+            n += 1
+            ck.ob("R4", "expanded-twin-consumes:%s:%s" % (name, c.rsplit("::", 1)[-1]), a <= (b or set()), site(s),
+                  "%s uses components %s of %s's result, its twin %s (taken under expand_inside_operation) uses %s" % (
+                      twin.rsplit("::", 1)[-1], sorted(a), c.rsplit("::", 1)[-1], name, sorted(b or [])))
+    if n < 1:
+        ck.missing("R4", "no expanded twin sharing a tuple-valued decision helper with its plain twin (confirmed by hand: emit_case_statement / emit_expanded_case_statement share cond_type_prefix)")
+    return n
